@@ -35,6 +35,10 @@ func init() {
 }
 
 func runC08(c *an.Ctx) {
+	// ---- R12: the filtered response is written once, for the original request (the writers size and
+	// truncate it by that request's EDNS buffer size and transport)
+	c.Floor("C08-R12", 1)
+	mainPipeline(c, "C08-R12")
 	c.Floor("C08-R11", 1)
 	dnssvcWiring(c, "C08-R11", func(dst, src string) bool {
 		n := normName(dst) + " " + normName(src)
